@@ -64,6 +64,13 @@ func (x *Exec) freshResults(st *State, prefix string, res *types.Tuple) Value {
 
 func (x *Exec) callFunction(st *State, ins ssa.Instruction, fn *ssa.Function, bindings []Value, args []Value, cont func(*State, Value)) {
 	full := fn.String()
+	if o := fn.Origin(); o != nil {
+		full = o.String()
+		if x.genericCall(st, ins, full, fn, args, cont) {
+			return
+		}
+	}
+	x.anchors(st, "before call "+x.anchorName(ins, full), nil)
 	// closures and synthetic wrappers: inline
 	if fn.Parent() != nil || len(bindings) > 0 {
 		x.inline(st, ins, fn, bindings, args, cont)
@@ -122,6 +129,7 @@ func (x *Exec) invoke(st *State, ins ssa.Instruction, call *ssa.CallCommon, recv
 	it := call.Value.Type()
 	full := "(" + types.TypeString(types.Unalias(it), nil) + ")." + call.Method.Name()
 	sig := call.Method.Type().(*types.Signature)
+	x.anchors(st, "before call "+x.anchorName(ins, full), nil)
 	// nil interface receiver panics
 	x.emit(st, "nil", x.labelFor(ins, "nil", describe(call.Value)+"."+call.Method.Name()), Not(Eq(app("itag", recv.Term), "0")), "")
 	st.Assume(Not(Eq(app("itag", recv.Term), "0")))
@@ -710,6 +718,9 @@ func (x *Exec) inlineWith(st *State, ins ssa.Instruction, fn *ssa.Function, bind
 // ---------- builtins
 
 func (x *Exec) builtin(st *State, ins ssa.Instruction, b *ssa.Builtin, call *ssa.CallCommon, args []Value, cont func(*State, Value)) {
+	if b.Name() == "append" {
+		x.anchors(st, "before call "+x.callLabel(ins, "append"), nil)
+	}
 	switch b.Name() {
 	case "len":
 		cont(st, intV(x.lenOf(st, args[0], false, nil)))
@@ -1140,4 +1151,77 @@ func (x *Exec) appendStructs(st *State, s, e Value, et types.Type) Value {
 	nc := x.D.Fresh("appcap", SInt)
 	st.Assume(fmt.Sprintf("(>= %s %s)", nc, n))
 	return x.mk(fmt.Sprintf("(mk_slice %s %s %s)", r, n, nc), s.Typ)
+}
+
+func (x *Exec) anchorName(ins ssa.Instruction, full string) string {
+	short := strings.ReplaceAll(full, x.P.ModPath+"/", "")
+	return x.callLabel(ins, short)
+}
+
+// genericCall interprets a few generic standard-library functions whose function-valued argument is a closure
+// visible at the call site: slices.IndexFunc, slices.ContainsFunc.
+func (x *Exec) genericCall(st *State, ins ssa.Instruction, full string, fn *ssa.Function, args []Value, cont func(*State, Value)) bool {
+	switch full {
+	case "slices.IndexFunc", "slices.ContainsFunc":
+	default:
+		return false
+	}
+	s, f := args[0], args[1]
+	if f.Clo == nil {
+		return false
+	}
+	sl, ok := types.Unalias(s.Typ).Underlying().(*types.Slice)
+	if !ok {
+		return false
+	}
+	c := x.D.Fresh("qv", SInt)
+	elemAt := func(idx string) Value {
+		if x.exploded(sl.Elem()) {
+			return x.loadObject(st, x.elemRef(app("sbase", s.Term), idx), sl.Elem())
+		}
+		es := x.TM.Sort(sl.Elem())
+		return x.mk(Select(Select(x.elemArr(st, es), app("sbase", s.Term)), idx), sl.Elem())
+	}
+	// evaluate the predicate closure once on the element at a fresh constant index
+	probe := st.clone()
+	probe.Assume(fmt.Sprintf("(and (<= 0 %s) (< %s (slen %s)))", c, c, s.Term))
+	var results []Value
+	nObl := len(x.Obls)
+	x.inline(probe, ins, f.Clo.Fn, f.Clo.Bindings, []Value{elemAt(c)}, func(_ *State, r Value) { results = append(results, r) })
+	if len(results) != 1 || results[0].Sort != SBool {
+		x.Obls = x.Obls[:nObl]
+		x.unsupported("predicate closure of %s is not a single-path boolean function", full)
+		return false
+	}
+	R := func(idx string) string { return strings.ReplaceAll(results[0].Term, c, idx) }
+	n := app("slen", s.Term)
+	all := func(bound string) string {
+		return fmt.Sprintf("(forall ((k!q Int)) (! (=> (and (<= 0 k!q) (< k!q %s)) (not %s)) :pattern (%s)))", bound, R("k!q"), x.elemRefOrSelect(s, sl, "k!q", st))
+	}
+	idx := x.D.Fresh("idx", SInt)
+	st.Assume(Or(And(Eq(idx, "(- 1)"), all(n)), And(fmt.Sprintf("(and (<= 0 %s) (< %s %s))", idx, idx, n), R(idx), all(idx))))
+	if full == "slices.ContainsFunc" {
+		cont(st, boolV(app(">=", idx, "0")))
+	} else {
+		cont(st, intV(idx))
+	}
+	return true
+}
+
+func (x *Exec) elemRefOrSelect(s Value, sl *types.Slice, idx string, st *State) string {
+	if x.exploded(sl.Elem()) {
+		return x.elemRef(app("sbase", s.Term), idx)
+	}
+	es := x.TM.Sort(sl.Elem())
+	return Select(Select(x.elemArr(st, es), app("sbase", s.Term)), idx)
+}
+
+// lastCall returns the latest call-log record for a logged callee (by last name).
+func (st *State) lastCall(name string) *CallRec {
+	for i := len(st.CallLog) - 1; i >= 0; i-- {
+		if st.CallLog[i].Name == name || strings.HasSuffix(st.CallLog[i].Name, "."+name) {
+			return &st.CallLog[i]
+		}
+	}
+	return nil
 }
